@@ -138,6 +138,24 @@ impl<'de> serde::Deserialize<'de> for P16 {
     fn deserialize<D: serde::Deserializer<'de>>(d: D) -> Result<Self, D::Error> { Ok(Self::mk(u64::deserialize(d)?)) }
 }
 
+// plain data aligned above 16 (the bare local buffers of constructors and conversions are usually 16-aligned at most)
+#[derive(Clone, Copy, PartialEq, Debug)]
+#[repr(C, align(32))]
+pub struct P32(pub [u64; 4]);
+impl V for P32 {
+    fn mk(id: u64) -> Self { P32([id, !id, id ^ 0x3333, id.wrapping_add(32)]) }
+    fn show(&self) -> String {
+        let x = self.0;
+        (if x[1] == !x[0] && x[2] == x[0] ^ 0x3333 && x[3] == x[0].wrapping_add(32) { x[0] } else { 0xBAD0_0000_0000 | (x[0] & 0xFFFF_FFFF) }).to_string()
+    }
+}
+impl serde::Serialize for P32 {
+    fn serialize<S: serde::Serializer>(&self, s: S) -> Result<S::Ok, S::Error> { s.serialize_u64(self.show().parse().unwrap()) }
+}
+impl<'de> serde::Deserialize<'de> for P32 {
+    fn deserialize<D: serde::Deserializer<'de>>(d: D) -> Result<Self, D::Error> { Ok(Self::mk(u64::deserialize(d)?)) }
+}
+
 // an `Option` of plain data (the generator's handling of `Option<_>` fields; `None` never occurs, so the value is always printable)
 impl V for Option<P4> {
     fn mk(id: u64) -> Self { Some(P4::mk(id)) }
